@@ -47,6 +47,19 @@ def cases(run: Run):
                 present = sorted(a for a in set(imported) | set(db_agents) if rng.random() < 0.8)
             rows[k] = present
         out.append({"op": "ephem", "imported": imported, "rows": rows, "steps": steps, "kind": kind})
+    for _ in range(run.n(24, 200)):
+        tg = [10001, 10002][: rng.randint(1, 2)]
+        sn = [60001, 60002][: rng.randint(1, 2)]
+        rt = {a: rng.random() < 0.5 for a in tg + sn}
+        if rng.random() < 0.5:  # the mixes the suite never uses: all targets one way, all sensors the other
+            flip = rng.random() < 0.5
+            rt = {a: (flip if a in tg else not flip) for a in tg + sn}
+        steps = rng.randint(2, 4)
+        imported = [a for a in tg + sn if not rt[a]]
+        gap = None
+        if imported and rng.random() < 0.5:
+            gap = [rng.choice(imported), rng.randint(1, steps)]
+        out.append({"op": "mixed", "targets": tg, "sensors": sn, "realtime": {str(a): rt[a] for a in rt}, "steps": steps, "gap": gap})
     for _ in range(run.n(40, 400)):
         n = rng.randint(0, 8)
         obs = []
@@ -201,6 +214,66 @@ def impl_obs(c, tmp):
     return {"ids": ids, "targets": tgts, "unchanged": sha(path) == before}
 
 
+def impl_mixed(c, tmp):
+    """the real Scenario.stepForward with a mix of realtime and imported agents and the real EphemerisImporter"""
+    import resonaate.scenario.clock as clk
+    import resonaate.scenario.scenario as scn
+    from resonaate.agents.target_agent import TargetAgent
+    from resonaate.common.exceptions import MissingEphemerisError
+    from resonaate.data.resonaate_database import ResonaateDatabase
+    from resonaate.dynamics.importer import EphemerisImporter
+    from resonaate.physics.time.stardate import datetimeToJulianDate
+
+    path = os.path.join(tmp, "mixed.sqlite3")
+    if os.path.exists(path):
+        os.remove(path)
+    agents = c["targets"] + c["sensors"]
+    rows = {k: [a for a in agents + [777] if not (c["gap"] and c["gap"] == [a, k])] for k in range(1, c["steps"] + 1)}
+    build_ephem_db(path, {"rows": rows, "imported": agents, "steps": c["steps"]})
+    before = sha(path)
+    imp = EphemerisImporter(f"sqlite:///{path}")
+    jd0 = datetimeToJulianDate(START)
+
+    class _Null:
+        def insertData(self, *a, **k):
+            return None
+
+    old = clk.getDBConnection
+    clk.getDBConnection = lambda: _Null()
+    try:
+        clock = clk.ScenarioClock(START, 60.0 * c["steps"], 60.0)
+    finally:
+        clk.getDBConnection = old
+
+    def mk(a):
+        st = SimpleNamespace(simulation_id=a, realtime=c["realtime"][str(a)], julian_date_start=jd0, eci_state=np.array(state_of(a, 0)), _time=0.0)
+        st.importState = (lambda eph, st=st: TargetAgent.importState(st, eph))
+        return st
+
+    tg = {a: mk(a) for a in c["targets"]}
+    sn = {a: mk(a) for a in c["sensors"]}
+    propagated = []
+    stub = SimpleNamespace(
+        clock=clock, database=ResonaateDatabase(db_path="sqlite://", logger=NULL), logger=NULL, target_agents=tg, sensor_agents=sn, estimate_agents={},
+        _agent_propagator=SimpleNamespace(enqueueJob=lambda job: propagated.append(job._registrant.simulation_id), join=lambda: None),
+        _ephem_importer=imp, _unsaved_epochs={}, scenario_config=SimpleNamespace(propagation=SimpleNamespace(truth_simulation_only=True)),
+        current_julian_date=clock.julian_date_start,
+    )
+    trace = []
+    for k in range(1, c["steps"] + 1):
+        propagated.clear()
+        try:
+            scn.Scenario.stepForward(stub)
+            res = "ok"
+        except MissingEphemerisError:
+            res = "missing"
+        trace.append({"k": k, "res": res, "propagated": sorted(propagated), "states": {a: [float(x) for x in ag.eci_state] for a, ag in {**tg, **sn}.items()}})
+        if res == "missing":
+            break
+    del imp
+    return {"trace": trace, "unchanged": sha(path) == before}
+
+
 def model_lines(c):
     if c["op"] == "ephem":
         lines = []
@@ -218,7 +291,7 @@ def model_lines(c):
 def run_cases(run: Run, cs):
     tmp = tempfile.mkdtemp(prefix="verif-c19-")
     try:
-        impls = [guarded(impl_ephem if c["op"] == "ephem" else impl_obs, c, tmp) for c in cs]
+        impls = [guarded({"ephem": impl_ephem, "obs": impl_obs, "mixed": impl_mixed}[c["op"]], c, tmp) for c in cs]
     finally:
         shutil.rmtree(tmp, ignore_errors=True)
     # model lines: ephemeris cases need the model state threaded through the steps; one driver pass per step depth
@@ -227,6 +300,16 @@ def run_cases(run: Run, cs):
         if c["op"] == "obs":
             index.append((ci, None, len(lines)))
             lines.extend(model_lines(c))
+        elif c["op"] == "mixed":
+            # the model sees one import step per scenario step: the registrants are exactly the non-realtime agents
+            agents = c["targets"] + c["sensors"]
+            regs = [a for a in agents if not c["realtime"][str(a)]]
+            for k in range(1, c["steps"] + 1):
+                rows = [a for a in agents + [777] if not (c["gap"] and c["gap"] == [a, k])]
+                states = [] if k == 1 else [(a, a * 1000 + (k - 1)) for a in regs]
+                index.append((ci, k, len(lines)))
+                lines.append(f"imp.step idSets {len(regs)} " + " ".join(map(str, regs)) + f" {len(states)} " + " ".join(f"{a} {r}" for a, r in states)
+                             + f" {len(rows)} " + " ".join(f"{a} {a * 1000 + k}" for a in rows))
         else:
             # the model's state before step k is fully determined by the steps before it (all ok): every imported agent's
             # record id is agent*1000 + (k-1) (or 0 initially) and, with the repaired importer, nobody stays registered
@@ -249,7 +332,36 @@ def run_cases(run: Run, cs):
             run.fail(f"{c['op']}:raises", c, f"{i[1]}")
             continue
         r = i[1]
-        if c["op"] == "obs":
+        if c["op"] == "mixed":
+            agents = c["targets"] + c["sensors"]
+            regs = [a for a in agents if not c["realtime"][str(a)]]
+            run.count("mixed:" + ("targets-rt/sensors-imported" if all(c["realtime"][str(a)] for a in c["targets"]) and not any(c["realtime"][str(a)] for a in c["sensors"])
+                                  else "targets-imported/sensors-rt" if not any(c["realtime"][str(a)] for a in c["targets"]) and all(c["realtime"][str(a)] for a in c["sensors"]) else "other"))
+            for st in r["trace"]:
+                k = st["k"]
+                gap_now = bool(c["gap"]) and c["gap"][1] == k
+                mo = dict(by_case[ci]).get(k) if outs is not None else None
+                if mo is not None:
+                    run.model_compared += 1
+                    if mo.startswith("missing") != (st["res"] == "missing"):
+                        run.disagree("mixed", c, f"step {k}: {st['res']}", mo)
+                if gap_now:
+                    if st["res"] != "missing":
+                        fails.append(("mixed:stale", f"step {k}: imported agent {c['gap'][0]} has no record but the run continued (realtime flags {c['realtime']})"))
+                    break
+                if st["res"] != "ok":
+                    fails.append(("mixed:false-missing", f"step {k}: importer raised although every imported agent has a record"))
+                    break
+                want_prop = sorted(a for a in agents if c["realtime"][str(a)])
+                if st["propagated"] != want_prop:
+                    fails.append(("mixed:propagated", f"step {k}: agents {st['propagated']} were propagated, the realtime ones are {want_prop}"))
+                for a in regs:
+                    if st["states"][a] != state_of(a, k):
+                        fails.append(("mixed:state", f"step {k}: imported agent {a} (realtime flags {c['realtime']}) has state {st['states'][a]}, its record is {state_of(a, k)}"))
+                        break
+            if not r["unchanged"]:
+                fails.append(("readonly", "the importer database file changed"))
+        elif c["op"] == "obs":
             if outs is not None:
                 run.model_compared += 1
                 want = [int(x) for x in Toks(by_case[ci][0][1]).list()]
